@@ -1992,18 +1992,23 @@ class LazyCryptContext(CryptContext):
         if schemes is not None:
             kwds["schemes"] = schemes
         self._lazy_kwds = kwds
-
-    #: lock serializing the one-time initialization.  re-entrant, since
-    #: CryptContext.__init__() reads public attributes of the instance itself.
-    _lazy_lock = threading.RLock()
+        # lock serializing the one-time initialization of this instance (one per instance:
+        # an onload() callback may take arbitrarily long, and must not hold up the first
+        # use of other contexts).  re-entrant, since CryptContext.__init__() reads public
+        # attributes of the instance itself.
+        self._lazy_lock = threading.RLock()
 
     def _lazy_init(self):
         # NOTE: this may be invoked (via LazyCryptContext.__getattribute__) by a thread
         #       which raced with the thread doing the initialization, after the instance
         #       has already been turned into a plain CryptContext -- so it only goes
         #       through the instance dict & names the class explicitly.
-        with LazyCryptContext._lazy_lock:
-            state = object.__getattribute__(self, "__dict__")
+        state = object.__getattribute__(self, "__dict__")
+        lock = state.get("_lazy_lock")
+        if lock is None:
+            # another thread finished the initialization already
+            return
+        with lock:
             kwds = state.get("_lazy_kwds")
             if kwds is None or "_lazy_loading" in state:
                 # another thread finished while we waited for the lock,
@@ -2022,6 +2027,7 @@ class LazyCryptContext(CryptContext):
             # so no thread ever sees a half-built context.
             self.__class__ = CryptContext
             del state["_lazy_kwds"]
+            state.pop("_lazy_lock", None)
 
     def __getattribute__(self, attr):
         if (not attr.startswith("_") or attr.startswith("__")) and (
